@@ -639,6 +639,20 @@ pub fn oracle_decoders(rng: &mut Rng, n: usize, tier: &str) -> OracleReport {
             check_decoders(&mut rep, &pair);
         }
     }
+    // declared lengths of 2^32 and more whose low 32 bits are small (a truncating cast would accept them),
+    // with and without that many bytes present
+    for prefix in [vec![0xfcu8, 0x01, 0, 0, 0, 5], vec![0xfc, 0x01, 0, 0, 0, 0], vec![0xfc, 0x02, 0, 0, 0, 1], vec![0xfc, 0x03, 0xff, 0xff, 0xff, 0xff],
+                   vec![0xf9, 0, 0, 0, 5], vec![0xfb, 0, 0, 0, 0], vec![0xfa, 0, 0, 0, 1], vec![0xfc, 0x00, 0x80, 0, 0, 3]] {
+        for extra in [0usize, 1, 5, 6] {
+            let mut b = prefix.clone();
+            b.extend(std::iter::repeat(0x41).take(extra));
+            check_decoders(&mut rep, &b);
+            let mut p = vec![0xffu8];
+            p.extend_from_slice(&b);
+            p.push(0x80);
+            check_decoders(&mut rep, &p);
+        }
+    }
     for _ in 0..n {
         let b = mutated_input(rng);
         check_decoders(&mut rep, &b);
